@@ -432,6 +432,12 @@ func (m *Machine) callVx(fn *ssa.Function, a []Value) Value {
 	case "vxTraceStatSeq":
 		m.Env.TraceStatSeq = m.mustStr(a[0], "vxTraceStatSeq")
 		return nil
+	case "vxTraceStatRule":
+		// rule-based os.Stat in trace mode; the argument is the task's (concrete) temp dir
+		m.Env.TraceRuleTmp = m.mustStr(a[0], "vxTraceStatRule")
+		m.Env.TraceStatSeq = ""
+		m.Env.traceExecSeen = false
+		return nil
 	case "vxTraceStatFork":
 		m.Env.TraceStatFork = m.DecideV(a[0])
 		return nil
